@@ -65,7 +65,7 @@ def oracleC05 (c : TCase) : Verdict :=
       match acc with
       | some (.fail _) => acc
       | _ =>
-      if t.kw != "resp" then acc else
+      if t.kw != "resp" && t.kw != "cresp" then acc else
       let w := unhex (t.op.getD 1 "-")
       let r := resText t
       if t.isPanic then some (.fail s!"panic: {t.raw}") else
@@ -234,6 +234,19 @@ def oracleC20 (c : TCase) : Verdict :=
           (if r == "fault api:HttpParseTooManyHeaders" then none else some s!"more complete field lines than the limit {lim}, not rejected: {r.take 60}")
         else if r == "none" then none else some s!"strict prefix ({w.length} of {enc.length}) within the limit is not 'incomplete': {r.take 80}"
       else none
+  -- a case may describe a response head, a request head, or both: each is judged
+  let reqV : Verdict := match reqOfMeta c with
+    | some q =>
+      if !(q.target.all isUriTokO) || q.target.isEmpty then .ok else
+      if !(q.fields.all Field.wfb) then .fail "harness bug: generated fields are not well-formed" else
+      let enc := q.enc
+      let full := s!"preq {enc.length} {toHex q.method} {q.ver}" ++ showHdrs (hdrsOfFields q.fields)
+      let st := c.lines.foldl (fun (acc : Option String) t => chk acc t enc q.fields q.line.length full "parse-req") none
+      (match st with | some w => .fail w | none => .ok)
+    | none => .ok
+  match reqV with
+  | .fail w => .fail w
+  | _ =>
   match headOfMeta c, reqOfMeta c with
   | some h, _ =>
     if !h.wfb then .fail "harness bug: generated head is not well-formed" else
@@ -260,11 +273,4 @@ def oracleC20 (c : TCase) : Verdict :=
           let j := (t.res.drop 3).length
           if j ≤ k && r == s!"ppartial {h.codeVal} {h.ver}" ++ showHdrs (hdrsOfFields (h.fields.take j)) then acc else some s!"partial parser reported a field that is not completely present (window {w.length} bytes, {k} complete lines): {r.take 120}") none
     (match st with | some w => .fail w | none => .ok)
-  | none, some q =>
-    if !(q.target.all isUriTokO) || q.target.isEmpty then .ok else
-    if !(q.fields.all Field.wfb) then .fail "harness bug: generated fields are not well-formed" else
-    let enc := q.enc
-    let full := s!"preq {enc.length} {toHex q.method} {q.ver}" ++ showHdrs (hdrsOfFields q.fields)
-    let st := c.lines.foldl (fun (acc : Option String) t => chk acc t enc q.fields q.line.length full "parse-req") none
-    (match st with | some w => .fail w | none => .ok)
-  | none, none => .ok
+  | none, _ => reqV
